@@ -5,6 +5,16 @@ from .values import *
 from .state import *
 
 
+def _quantified(e, seen=None):
+    seen = seen if seen is not None else set()
+    if e.get_id() in seen:
+        return False
+    seen.add(e.get_id())
+    if z3.is_quantifier(e):
+        return True
+    return any(_quantified(c, seen) for c in e.children())
+
+
 def ident_eq(a, b):
     return a.keys() == b.keys() and all(a[k] is b[k] for k in a)
 
@@ -322,7 +332,14 @@ class ExprMixin:
             if isinstance(op, (ast.FloorDiv, ast.Mod)) and not isinstance(a, VReal) and not isinstance(b, VReal):
                 outs = []
                 for s2, nz in self.branch(st, lift(b).t != 0 if not isinstance(b, VBool) else b.t, 'divzero'):
-                    if nz:
+                    if nz and isinstance(a, VInt) and isinstance(b, VInt) and not z3.is_int_value(z3.simplify(b.t)):
+                        # symbolic divisor: quotient and remainder by their defining property (exactly Python's floor
+                        # division for either sign of the divisor) - gives the solver q*b as a term instead of an opaque div
+                        q = z3.Const(fresh_name('quot'), z3.IntSort())
+                        r = z3.Const(fresh_name('rem'), z3.IntSort())
+                        s2.pc += [a.t == q * b.t + r, z3.Implies(b.t > 0, z3.And(r >= 0, r < b.t)), z3.Implies(b.t < 0, z3.And(r <= 0, r > b.t))]
+                        outs.append((s2, VInt(q) if isinstance(op, ast.FloorDiv) else VInt(r)))
+                    elif nz:
                         outs.append((s2, a // b if isinstance(op, ast.FloorDiv) else a % b))
                     else:
                         outs.append(self.exc(s2, 'ZeroDivisionError', node))
@@ -556,11 +573,33 @@ class ExprMixin:
             return self.bind(self.ev_many(parts, st), f)
         return self.bind(self.ev_many([e.value, e.slice], st), lambda s, vs: self.index(vs[0], vs[1], s, e))
 
-    def _clamp(self, idx, L):
-        return z3.If(idx < 0, z3.If(idx + L < 0, 0, idx + L), z3.If(idx > L, L, idx))
+    def _clamp(self, idx, L, st=None):
+        """Python's slice-bound normalisation.  When the path condition already decides which case applies the
+        conditional is resolved here (an equivalent, smaller term: only implied cases are dropped)."""
+        full = z3.If(idx < 0, z3.If(idx + L < 0, 0, idx + L), z3.If(idx > L, L, idx))
+        if st is None or z3.is_int_value(z3.simplify(idx)):
+            return full
+        if self.known(st, idx >= 0, True):
+            if self.known(st, idx <= L, True):
+                return idx
+            if self.known(st, idx > L, True):
+                return L
+            return z3.If(idx > L, L, idx)
+        if self.known(st, idx < 0, True):
+            if self.known(st, idx + L >= 0, True):
+                return idx + L
+            if self.known(st, idx + L < 0, True):
+                return z3.IntVal(0)
+            return z3.If(idx + L < 0, 0, idx + L)
+        return full
 
     def slice(self, v, lo, hi, step, st, node):
         if step is not None:
+            hs = self.hooks.get('slice_step')
+            if hs:
+                r = hs(self, v, lo, hi, step, st, node)
+                if r is not None:
+                    return r
             if isinstance(v, VOpaque):
                 return [(st, VOpaque(hint='slice'))] + self.maybe_raise(st, 'slice', node)
             raise Refuse("slice with step")
@@ -569,9 +608,20 @@ class ExprMixin:
                 if x is not None and not isinstance(x, (VInt, VNoneT)):
                     raise Refuse(f"slice bound {x!r}")
             L = z3.Length(v.t)
-            a = z3.IntVal(0) if lo is None or isinstance(lo, VNoneT) else self._clamp(lo.t, L)
-            b = L if hi is None or isinstance(hi, VNoneT) else self._clamp(hi.t, L)
+            if getattr(self, 'split_slice_sign', False):
+                # opt-in: an undetermined sign of a bound becomes two paths instead of a conditional term
+                for x in (lo, hi):
+                    if isinstance(x, VInt) and not z3.is_int_value(z3.simplify(x.t)) \
+                            and not self.known(st, x.t >= 0, True) and not self.known(st, x.t < 0, True):
+                        outs = []
+                        for s2, _ in self.branch(st, x.t >= 0, f"slice-sign@{node.lineno}"):
+                            outs += self.slice(v, lo, hi, step, s2, node)
+                        return outs
+            a = z3.IntVal(0) if lo is None or isinstance(lo, VNoneT) else self._clamp(lo.t, L, st)
+            b = L if hi is None or isinstance(hi, VNoneT) else self._clamp(hi.t, L, st)
             n = z3.If(b - a < 0, 0, b - a)
+            if not z3.is_int_value(z3.simplify(b - a)) and self.known(st, b - a >= 0, True):
+                n = b - a
             r = z3.SubString(v.t, z3.simplify(a), z3.simplify(n))
             return [(st, VStr(r) if isinstance(v, VStr) else VSeq(r))]
         if isinstance(v, (VList, VTuple)):
@@ -625,14 +675,25 @@ class ExprMixin:
             return [(st, VOpaque(hint='item'))] + self.maybe_raise(st, 'index', node)
         raise Refuse(f"index of {v!r} by {i!r} at line {node.lineno}")
 
-    def known(self, st, cond):
+    def known(self, st, cond, ground_only=False):
         """True iff cond is implied by the path condition (cheap check)"""
+        self.stats['feasibility_queries'] += 1
+        ground = [p for p in st.pc if not _quantified(p)]
+        if len(ground) != len(st.pc):
+            # fewer hypotheses first: implied by the quantifier-free part => implied by all of it
+            s = z3.Solver()
+            s.set('timeout', self.feas_timeout_ms)
+            s.add(*ground)
+            s.add(z3.Not(cond))
+            if s.check() == z3.unsat:
+                return True
+            if ground_only:
+                return False
         s = z3.Solver()
         s.set('timeout', self.feas_timeout_ms)
         s.add(*self.axioms_z3)
         s.add(*st.pc)
         s.add(z3.Not(cond))
-        self.stats['feasibility_queries'] += 1
         return s.check() == z3.unsat
 
     # ---- comprehensions
@@ -746,6 +807,13 @@ class ExprMixin:
                 return [(s, VOpaque(hint='comp', nonnull=True))] + effect_states + outs
             raise Refuse(f"comprehension over {it!r} at line {e.lineno}")
         return self.bind(self.ev(g.iter, st), run)
+
+    def ev_Yield(self, e, st):
+        """generator functions: the yielded values go to a ghost output handled by the contract's 'yield' hook"""
+        h = self.hooks.get('yield')
+        if h is None:
+            raise Refuse(f"yield at line {e.lineno} (no ghost output declared)")
+        return self.bind(self.ev(e.value, st) if e.value is not None else [(st, NONE)], lambda s, v: h(self, v, s, e))
 
     def ev_Slice(self, e, st):
         # a slice object inside a tuple subscript (a[:, j]): an opaque key built from its bounds
